@@ -488,3 +488,40 @@ B("R-F5", "C08-K1", [(CAND, '''    if not greedy_asp_minification or len(node_nf
         return [retained_set | node_space]
 
     if not greedy_asp_minification or len(node_nfvs) == 0:''')], "F5 re-introduced: fixed-point retained set returned as the only candidate")
+
+
+# ------------------------------------------------------------------------------------------ C01 / C12
+B("B04", "C01-S3", [(SD, '''            if len(candidates) == 0 or (
+                node_is_pseudo_minimal and len(candidates) == 1
+            ):
+                node["attractor_seeds"] = candidates
+
+        return candidates''', '''            if len(candidates) == 0 or len(candidates) == 1:
+                node["attractor_seeds"] = candidates
+
+        return candidates''')], "single candidate of a non-minimal expanded node becomes a seed unchecked")
+B("B05", "C01-S2", [(SYM, "        avoid = avoid.union(closure)\n", "")], "found attractor not added to the avoid set")
+B("B06", "C01-S2", [(SYM, "        avoid = avoid.minus(candidate_singleton)\n", "")], "current candidate not removed from the avoid set")
+B("B07", "C01-S1", [(SYM, "        seeds.append(candidate | node_space)", "        seeds.append(candidate)")], "reduced state recorded as seed")
+B("B08a", "C12-A", [(SYM, "        vertices = sd.symbolic.transfer_from(vertices, graph_reduced)\n", "")], "attractor set not transferred to the full context")
+B("B08b", "C12-A", [(SYM, "        vertices = vertices.intersect(space_symbolic)\n", "")], "attractor set not restricted to the node space")
+B("B09", "C01-S2", [(SYM, '''        closure = symbolic_attractor_test(sd, node_id, graph_reduced, candidate, avoid)
+
+        if closure is None:''', '''        closure = symbolic_attractor_test(sd, node_id, graph_reduced, candidate, avoid)
+        sets.append(closure)
+
+        if closure is None:'''), (SYM, "        seeds.append(candidate | node_space)\n        sets.append(closure)", "        seeds.append(candidate | node_space)")],
+  "set recorded before the refutation test")
+B("B11", ["C01-S4", "C15-E4"], [(SCC, "    if check_maa and _has_no_attractor_candidates(scc_sd, scc_sd.root()):", "    if check_maa:")],
+  "attachment node marked attractor-free without evidence")
+B("B99", "C01-S6", [(BLK, "motif_block = node_bn.backward_reachable(list(motif.keys()))", "motif_block = node_bn.find_variable(list(motif.keys())[0]) and [node_bn.find_variable(k) for k in motif.keys()]")],
+  "blocks no longer closed under regulators")
+B("B100", "C01-S4", [(BLK, "                    block_sd = sd.component_subdiagram(list(block), node)", "                    block_sd = sd.component_subdiagram(list(block), sd.root())")],
+  "clean-block evidence computed for the root, mark put on the node")
+B("B101", "C12-D", [(SYM, "        for var in conflict_vars + other_sorted:", "        for var in conflict_vars + other_sorted[: len(conflict_vars) + 1]:")],
+  "only some non-conflict variables are ever saturated")
+B("B102", "C12-B", [(SYM, "        result_seeds.append(cast(BooleanSpace, attr_seed_named))\n        result_sets.append(attr_vertices)",
+                      "        result_seeds.append(cast(BooleanSpace, attr_seed_named))\n        if attr_vertices.cardinality() > 1:\n            result_sets.append(attr_vertices)")],
+  "fallback records sets only for complex attractors")
+B("B103", "C12-C", [(SD, "                    self, node_id, candidate_states=seeds\n", "                    self, node_id, candidate_states=self.node_attractor_candidates(node_id, compute=True)\n")],
+  "sets recomputed from candidates instead of the node's seeds (order no longer follows the seeds)")
